@@ -244,9 +244,7 @@ func c19Cases(tier string) []c19Case {
 		for mi, mv := range metaVariants {
 			t := append(sh.Clone(), mv...)
 			t.Sort()
-			if len(t) == 0 {
-				continue
-			}
+			// the empty tree too: a listing with zero records is still a listing
 			paths := sh.Paths()
 			for mask := 0; mask < 1<<len(paths); mask++ {
 				var sel []string
